@@ -229,7 +229,7 @@ pub fn record(seed: u64, tier: &str, out: &str) {
     edge_u128(&mut t);
     let tables = t.events;
     // sampled large operands
-    let n = if thorough { 150_000 } else { 2400 };
+    let n = if thorough { 150_000 } else { 12_000 };
     for k in 0..n {
         match k % 6 {
             0 | 1 => {
